@@ -208,7 +208,7 @@ def sample_view(case):
 
 
 def write_replay(pid, failure):
-    d = os.path.join(VERIF, "replays", pid)
+    d = os.path.join(os.environ.get("VERIF_FAIL_DIR", os.path.join(VERIF, "replays")), pid)
     os.makedirs(d, exist_ok=True)
     body = dict(property=pid, signature=failure["sig"], text=failure["text"][:2000], case=failure["case"])
     txt = json.dumps(body, sort_keys=True, indent=1)
